@@ -28,7 +28,8 @@ import checks.c11 as c11
 NATIVES = {k: v[0] for k, v in gates.SIGS.items()}
 IDLE = set(gates.IDLE)
 N = 3
-HEADER = (("let", "k", 1), ("register", "q", N), ("map", "a", "q", 0, 3, 2), ("map", "c", "q", "k"))
+HEADER = (("let", "k", 1), ("register", "q", N), ("map", "a", "q", 0, 3, 2), ("map", "c", "q", "k"),
+          ("map", "w", "q"), ("map", "b", "a"))  # whole-register aliases: of the register, of a strided alias
 MACROS = (
     A.macro("mx", ("p",), A.seq(A.gate("X", "p"))),
     A.macro("mr", ("r",), A.seq(A.gate("X", A.item("r", 0)), A.gate("H", A.item("r", 1)))),
@@ -53,6 +54,9 @@ def branch_alphabet(tier):
     out.append(A.seq(A.loop(0, A.seq(A.gate("X", q(0))))))
     # busy gates inside a branch: they use every qubit, so any non-idle neighbour overlaps
     out.append(A.seq(A.gate("X", q(1)), A.gate("measure_all"), A.gate("prepare_all"), A.gate("X", q(1))))
+    # the same physical qubits named through whole-register aliases (of the register; of the strided alias)
+    out.append(A.gate("X", A.item("w", 2)))
+    out.append(A.gate("H", A.item("b", 1)))  # b[1] = a[1] = q2
     if tier != "quick":
         out.append(A.gate("CX", q(1), q(2)))
         out.append(A.gate("A3", q(2), q(0), q(1)))
@@ -190,7 +194,7 @@ class C13(ProgramCheck):
             gen = (
                 ("par", tuple(bs), place)
                 for r in sizes
-                for bs in itertools.product(alpha if r == 2 or tier != "quick" else alpha[:9], repeat=r)
+                for bs in itertools.product(alpha if r == 2 or tier != "quick" else alpha[:9] + alpha[-2:], repeat=r)
                 for place in PLACES
             )
             yield from itertools.islice(gen, shard[1], None, 32)
